@@ -81,6 +81,14 @@ def configs(tier):
             [('e', 'a', 'b'), ('e', 'b', 'c'), ('f', 'a', 'c'), ('f', ['b'], 'c'), ('g', None, 'a'),
              ('h', 'a', None), ('h', [], 'b')]):
         out.append(dict(kind='table', states=['a', 'b', 'c'], rules=meaning, raw_rules=raw))
+    # the same tables with the last state (or the last two) declared through TIMERS only
+    base_tables = [c for c in out if c['kind'] == 'table' and len(c['states']) >= 2 and 'raw_rules' not in c]
+    for i, c in enumerate(base_tables):
+        if len(base_tables) > 400 and i % (5 if tier == 'quick' else 25):
+            continue
+        out.append(dict(c, inf_only=tuple(c['states'][-1:])))
+        if len(c['states']) == 3:
+            out.append(dict(c, inf_only=tuple(c['states'][1:])))
     cyc = [['e', 'a', 'b'], ['e', 'b', 'a'], ['f', None, 'a']]
     vals = ['absent', True, False, 0, 'x', None]
     for m in vals:
@@ -202,6 +210,12 @@ def make_class(cfg, holder):
     if timers:
         ns['TIMERS'] = {s: (d, edzed.Goto(ev[5:]) if ev.startswith('goto_') else ev)
                         for s, (d, ev) in timers.items()}
+    if cfg.get('inf_only'):
+        # states that are declared through TIMERS only (with an infinite duration: the timer
+        # never fires, the table is the same)
+        ns['STATES'] = [s for s in states if s not in cfg['inf_only']]
+        ns.setdefault('TIMERS', {}).update(
+            {s: (edzed.INF_TIME, edzed.Goto(states[0])) for s in cfg['inf_only']})
     holder['n'] = holder.get('n', 0) + 1
     return type(f"Gen{holder['n']}", (edzed.FSM,), ns)
 
